@@ -96,7 +96,7 @@ CHECKS["C01"] = dict(
     text="Per scheme, a code-shaped Coq model of the comparison (parsing of the version text, shortcuts, loops) and a refinement theorem: on the shape every accepted version "
          "has, the comparison the code computes equals a lexicographic order on an explicit key (padded token lists for deb, components/letter/suffix-chain/revision for "
          "ebuild and alpine, a five-field key for legacy openssl, the string order for generic), which is a total preorder; all five laws of the property and the "
-         "order-independence of sorting are proved once for any total preorder. Schemes with a theorem: generic, legacy openssl, ebuild, alpine, deb, the semver family (semver, nginx, golang, composer) gem, rpm, alpm (within a pkgrel class), openssl and pypi (listed in the evidence); maven is modelled and compared, its order is the listed finding. "
+         "order-independence of sorting are proved once for any total preorder. Schemes with a theorem: generic, legacy openssl, ebuild, alpine, deb, the semver family (semver, nginx, golang, composer) gem, rpm, alpm (within a pkgrel class), openssl and pypi (listed in the evidence); maven, nuget and conan are modelled and compared without an order theorem (maven's order is the listed finding). "
          "For every version class, modelled or not, the laws are also evaluated on the implementation over triples of near-equal versions (every ordered triple of sliding windows "
          "of the near-pair stream) and random triples, with the two excluded sub-domains filtered; modelled classes are additionally compared with their model (operators, key order, "
          "theorem domain).",
@@ -119,7 +119,7 @@ CHECKS["C12"] = dict(
          "battery of public operations.",
     ref="6 (C12), 10", technique="Coq proof by computation over translator-generated class tables + scheme-level eq/hash theorems; runtime monitoring for the mutation clause",
     note="PARTIAL: 'no public operation changes its arguments' is about the CPython heap and cannot be a theorem of a functional model; it is monitored at run time (snapshots), named as such. "
-         "Hash/eq theorems exist for every modelled class except maven (legacy openssl, semver family, gem, rpm, deb, alpm, ebuild/alpine, pypi, openssl); for maven, nuget and conan agreement is checked on the implementation. Known finding: maven == is not an equivalence where a sub-list with an empty first item faces a missing item.")
+         "Hash/eq theorems exist for every modelled class except maven (legacy openssl, semver family, gem, rpm, deb, alpm, ebuild/alpine, pypi, openssl); for maven (finding), nuget and conan agreement is checked on the implementation and against their models. Known finding: maven == is not an equivalence where a sub-list with an empty first item faces a missing item.")
 
 CHECKS["C11"] = dict(
     text="Per modelled scheme the constructor is the code's `normalize; is_valid; build_value`, with the validity check and the builder as two separate code-shaped models. Proved: "
